@@ -694,6 +694,8 @@ Pointset_Powerset<PSET>::topological_closure_assign() {
   for (Sequence_iterator si = x.sequence.begin(),
          s_end = x.sequence.end(); si != s_end; ++si) {
     si->pointset().topological_closure_assign();
+    // The closures of incomparable disjuncts may be comparable.
+    x.reduced = false;
   }
   PPL_ASSERT_HEAVY(x.OK());
 }
